@@ -919,7 +919,7 @@ func (runInfo *runInfoStruct) runDeleteStmt(stmt *ast.DeleteStmt) {
 			runInfo.rv = nilValue
 			return
 		}
-		runInfo.rv, runInfo.err = convertReflectValueToType(runInfo.rv, item.Type().Key())
+		runInfo.rv, runInfo.err = runInfo.convertValue(runInfo.rv, item.Type().Key())
 		if runInfo.err != nil {
 			runInfo.err = newStringError(stmt, "cannot use type "+item.Type().Key().String()+" as type "+runInfo.rv.Type().String()+" in delete")
 			runInfo.rv = nilValue
